@@ -30,29 +30,51 @@ theorem bfs_eq_reach (G : Graph) (roots excl : List (Nat × Nat)) (hG : Closed G
     (hr : ∀ r ∈ roots, r.1 < G.length) (n : Nat) :
     n ∈ descendantAccs G roots excl ↔
       isAcc G n = true ∧ ∃ r ∈ startNodes roots excl, Reach G excl r n := by
-  sorry
+  have hbridge : ∀ a b, Reach G excl a b ↔ Reaches G excl a b := by
+    intro a b
+    constructor
+    · intro h
+      induction h with
+      | refl => exact Reaches.refl _
+      | step b c nr _ he hex ih => exact Reaches.step _ b c nr ih he hex
+    · intro h
+      induction h with
+      | refl => exact Reach.refl _
+      | step b c nr _ he hex ih => exact Reach.step _ b c nr ih he hex
+  rw [descendantAccs_spec G roots excl hG hr n]
+  simp only [hbridge]
+  rfl
 
 /-- the result contains no duplicates (it is a set) -/
 theorem bfs_nodup (G : Graph) (roots excl : List (Nat × Nat)) :
     (descendantAccs G roots excl).Nodup := by
-  sorry
+  exact descendantAccs_nodup G roots excl
 
 /-- the executable tensor-level reachability used as the oracle by the harness agrees with the walk -/
 theorem bfs_eq_tensorlevel (G : Graph) (roots excl : List (Nat × Nat)) (hG : Closed G)
     (hr : ∀ r ∈ roots, r.1 < G.length) (n : Nat) :
     n ∈ descendantAccs G roots excl ↔ n ∈ reachAvoidingTensors G roots excl := by
-  sorry
+  rw [descendantAccs_spec G roots excl hG hr n, reachAvoidingTensors_spec G roots excl hG hr n]
 
 /-- an excluded root contributes nothing by itself -/
 theorem excluded_root_ignored (G : Graph) (r : Nat × Nat) (excl : List (Nat × Nat)) (h : r ∈ excl) :
     descendantAccs G [r] excl = [] := by
-  sorry
+  have hf : [r].filter (fun r => !excl.contains r) = [] := by simp [h]
+  simp only [descendantAccs, hf, List.map_nil, dedup, List.length_nil]
+  rfl
 
 /-- more roots find more leaves (monotone), fewer exclusions too -/
 theorem bfs_mono_roots (G : Graph) (roots roots' excl : List (Nat × Nat)) (hG : Closed G)
     (hr : ∀ r ∈ roots', r.1 < G.length) (hsub : ∀ r ∈ roots, r ∈ roots') (n : Nat)
     (hn : n ∈ descendantAccs G roots excl) : n ∈ descendantAccs G roots' excl := by
-  sorry
+  have hr0 : ∀ r ∈ roots, r.1 < G.length := fun r h => hr r (hsub r h)
+  rw [descendantAccs_spec G roots excl hG hr0 n] at hn
+  rw [descendantAccs_spec G roots' excl hG hr n]
+  obtain ⟨hacc, r, hrs, hreach⟩ := hn
+  refine ⟨hacc, r, ?_, hreach⟩
+  obtain ⟨t, ht, rfl⟩ := List.mem_map.1 hrs
+  obtain ⟨ht1, ht2⟩ := List.mem_filter.1 ht
+  exact List.mem_map.2 ⟨t, List.mem_filter.2 ⟨hsub t ht1, ht2⟩, rfl⟩
 
 /-- WHY TENSORS AND NOT NODES: a feature that is one output of a two-output node whose sibling output
     is used by the loss.  Excluding the tensor `(1, 0)` still finds the leaf `2` through the sibling
